@@ -11,7 +11,7 @@ for k in sorted(kf, key=lambda k: (k["status"] != "fixed", k["property"], k.get(
     rows.append(f"| {k['property']} | {st} | `{k['fingerprint']}` | {what} |")
 p = os.path.join(V, "DESIGN.md")
 s = open(p).read()
-a = s.index("| property | status | what |")
+a = s.index("| property | status | fingerprint | what |") if "| property | status | fingerprint | what |" in s else s.index("| property | status | what |")
 b = s.index("Suspected, not decided")
 s = s[:a] + "| property | status | fingerprint | what |\n|---|---|---|---|\n" + "\n".join(rows) + "\n\n" + s[b:]
 open(p, "w").write(s)
